@@ -25,7 +25,7 @@ def dispatch (prop : String) (inp out : List String) : Verdict :=
   | "C06" => if inp.head? == some "auth" then AuthDrv.check "C06" inp out else DrvDrv.check "C06" inp out
   | "C09" => DirDrv.check inp out
   | "C18" => InpDrv.check inp out
-  | "C15" => BusDrv.check inp out
+  | "C15" => if inp.head? == some "auth" then AuthDrv.check "C15" inp out else BusDrv.check inp out
   | "C10" => AuthDrv.check "C10" inp out
   | "C20" => AuthDrv.check "C20" inp out
   | "C16" => TaskDrv.check inp out
